@@ -43,6 +43,10 @@ type Mech struct {
 	Opts      []Opt  `json:"opts"`
 }
 
+// tagName: the struct tag that names an option ("mapstructure" for the mechanism config structs,
+// "koanf" for the Configuration struct)
+var tagName = "mapstructure"
+
 var kinds = [][2]string{
 	{"authenticators", "authenticators"},
 	{"authorizers", "authorizers"},
@@ -156,7 +160,7 @@ func structOpts(st *ast.StructType, self *pkgInfo, all map[string]*pkgInfo, impo
 			continue
 		}
 
-		ms := reflect.StructTag(tag).Get("mapstructure")
+		ms := reflect.StructTag(tag).Get(tagName)
 		val := reflect.StructTag(tag).Get("validate")
 		name, rest, _ := strings.Cut(ms, ",")
 
@@ -487,7 +491,28 @@ func main() {
 		return mechs[i].Type < mechs[j].Type
 	})
 
+	// the sections of the Configuration struct (koanf tags), for the non-mechanism part of the schema
+	var sections []Mech
+
+	if cp := all[module+"internal/config"]; cp != nil {
+		if st := cp.types["Configuration"]; st != nil {
+			tagName = "koanf"
+
+			for _, o := range structOpts(st, cp, all, cp.timps["Configuration"], 0) {
+				sub := o.Sub
+				if sub == nil {
+					sub = []Opt{}
+				}
+
+				sections = append(sections, Mech{Kind: "section", Type: o.Name, Ctor: o.GoType, File: "internal/config/configuration.go",
+					HasConfig: len(sub) > 0, Opts: sub})
+			}
+
+			tagName = "mapstructure"
+		}
+	}
+
 	enc := json.NewEncoder(os.Stdout)
 	enc.SetIndent("", " ")
-	enc.Encode(map[string]any{"mechs": mechs}) //nolint:errcheck
+	enc.Encode(map[string]any{"mechs": mechs, "sections": sections}) //nolint:errcheck
 }
